@@ -49,6 +49,10 @@ class _HarnessAbort(BaseException):
     pass
 
 
+class _StopShrink(BaseException):
+    pass
+
+
 # ------------------------------------------------------------------ known findings
 
 def load_known(pid):
@@ -142,12 +146,10 @@ def _worker(job):
 
 def _guarded(col, case, source):
     if col.first_failure_at is not None and time.time() - col.first_failure_at > col.shrink_budget:
-        # shrink budget used up: freeze the best failing case found so far (it keeps failing, everything else passes,
-        # so the shrinker stops making progress and Hypothesis' final replay is consistent). Only the size of the
-        # reported example depends on this wall-clock budget, never the verdict.
-        if digest(case) == col.last_failure["digest"]:
-            raise _Violation(col.last_failure["violations"][0][0])
-        return
+        # shrink budget used up: stop Hypothesis here and report the smallest failing case found so far (every failing
+        # candidate the shrinker accepts is smaller than the previous one, so last_failure is the current best). Only
+        # the size of the reported example depends on this wall-clock budget, never the verdict.
+        raise _StopShrink()
     try:
         unlisted = col.run(case)
     except Exception:  # anything escaping check() is a defect of the harness, never a verdict
@@ -178,7 +180,7 @@ def _run_hypothesis(mod, col, params, seed, idx, n):
         test()
     except _Violation:
         pass  # col.last_failure holds the final (shrunk) failing case: Hypothesis replays the minimal one last
-    except _HarnessAbort:
+    except (_HarnessAbort, _StopShrink):
         pass
     except BaseException as e:  # Flaky / Unsatisfiable / strategy errors
         if col.last_failure is None and col.harness_error is None:
